@@ -286,7 +286,7 @@ def notePending (s0 : State) (r : State × Out) : State × Out :=
 def execEntry (cfg : Cfg) (s : State) (c : Call) (async : Bool) : State × Out :=
   if s.status ≠ .waiting then (s, .exc .assertion)
   else
-    let s := if c.cbKw then { s with userCb := some 2 } else s
+    let s := { s with userCb := if c.cbKw then some 2 else s.userCb }
     match handleParams cfg.paramNames s.command s.mapping c with
     | (cmd, map, some e) => ({ s with command := cmd, mapping := map }, .exc e)
     | (cmd, map, none) =>
